@@ -123,3 +123,288 @@ Qed.
 
 Lemma clean_total s : clean s <> Panic /\ clean s <> OutOfFuel.
 Proof. rewrite clean_is_spec. split; discriminate. Qed.
+
+(* ------------------------------------------------------------------------------------------ *)
+(* properties of the denotation *)
+From RV Require Import Base.PathLexFacts.
+
+Definition den_ok (d : den) : Prop :=
+  (d_root d = true -> d_ups d = 0) /\ Forall is_name (d_names d).
+
+Lemma den_go_ok cs : Forall comp_name_ok cs -> forall r ups rn,
+  (r = true -> ups = 0) -> Forall is_name rn -> den_ok (den_go cs r ups rn).
+Proof.
+  induction 1 as [|c cs Hc _ IH]; intros r ups rn Hr Hn; cbn [den_go].
+  - split; simpl; [assumption | apply Forall_rev; assumption].
+  - destruct c as [| | |n].
+    + apply IH; [reflexivity | constructor].
+    + apply IH; assumption.
+    + destruct rn as [|m rn].
+      * destruct r; apply IH; try assumption; try constructor. discriminate.
+      * apply IH; [assumption | inversion Hn; assumption].
+    + apply IH; [assumption | constructor; assumption].
+Qed.
+
+Lemma denote_ok s : den_ok (denote (components s)).
+Proof. apply den_go_ok; [apply components_names_ok | reflexivity | constructor]. Qed.
+
+Lemma den_go_names ns : forall r ups rn,
+  den_go (map CNormal ns) r ups rn = {| d_root := r; d_ups := ups; d_names := rev rn ++ ns |}.
+Proof.
+  induction ns as [|n ns IH]; intros r ups rn; cbn [map den_go].
+  - rewrite app_nil_r. reflexivity.
+  - rewrite IH. cbn [rev]. rewrite <- app_assoc. reflexivity.
+Qed.
+
+Lemma den_go_ups k : forall t ups, den_go (repeat CParent k ++ t) false ups [] = den_go t false (ups + k) [].
+Proof.
+  induction k as [|k IH]; intros t ups; cbn [repeat app den_go].
+  - rewrite Nat.add_0_r. reflexivity.
+  - rewrite IH. f_equal. lia.
+Qed.
+
+Lemma denote_canon d : den_ok d -> denote (canon d) = d.
+Proof.
+  destruct d as [r ups ns]. intros [Hr _]. simpl in Hr. unfold canon, denote. cbn [d_root d_ups d_names].
+  destruct r.
+  - rewrite (Hr eq_refl). cbn [repeat app den_go]. rewrite den_go_names. reflexivity.
+  - cbn [app]. destruct (repeat CParent ups ++ map CNormal ns) eqn:E.
+    + destruct ups; [|discriminate]. destruct ns; [|discriminate]. reflexivity.
+    + rewrite <- E. rewrite den_go_ups, den_go_names. reflexivity.
+Qed.
+
+(* the canonical list is [CCur], or root/ups/names with proper names *)
+Lemma canon_tail_ok d : den_ok d -> Forall tailc_ok (repeat CParent (d_ups d) ++ map CNormal (d_names d)).
+Proof.
+  intros [_ Hn]. apply Forall_app; split.
+  - apply Forall_forall. intros c Hc. apply repeat_spec in Hc. subst. exact I.
+  - apply Forall_map. exact Hn.
+Qed.
+
+Lemma components_render_canon d : den_ok d -> components (render (canon d)) = canon d.
+Proof.
+  intros Hd. pose proof (canon_tail_ok d Hd) as HT. unfold canon. destruct (d_root d).
+  - cbn [app]. apply components_render_rooted. exact HT.
+  - cbn [app]. destruct (repeat CParent (d_ups d) ++ map CNormal (d_names d)) eqn:E.
+    + reflexivity.
+    + apply components_render_unrooted; [discriminate | exact HT].
+Qed.
+
+(* T2a: idempotence *)
+Lemma clean_spec_idem s : clean_spec (clean_spec s) = clean_spec s.
+Proof.
+  unfold clean_spec. pose proof (denote_ok s) as Hd.
+  rewrite components_render_canon by assumption. rewrite denote_canon by assumption. reflexivity.
+Qed.
+
+Lemma clean_idem s r : clean s = Done r -> clean r = Done r.
+Proof. rewrite !clean_is_spec. intros H. injection H as <-. rewrite clean_spec_idem. reflexivity. Qed.
+
+(* T2b: never empty *)
+Lemma canon_nonempty d : canon d <> [].
+Proof. unfold canon. destruct (_ ++ _); discriminate. Qed.
+
+Lemma render_canon_nonempty d : den_ok d -> render (canon d) <> [].
+Proof.
+  intros Hd E. pose proof (components_render_canon d Hd) as H. rewrite E in H.
+  cbn in H. symmetry in H. exact (canon_nonempty d H).
+Qed.
+
+Lemma clean_nonempty s r : clean s = Done r -> r <> [].
+Proof. rewrite clean_is_spec. intros H. injection H as <-. apply render_canon_nonempty, denote_ok. Qed.
+
+(* T2c: absoluteness is preserved *)
+Lemma den_go_root_tail t : tail_ok t -> forall r ups rn, d_root (den_go t r ups rn) = r.
+Proof.
+  induction 1 as [|c t Hc _ IH]; intros r ups rn; cbn [den_go]; [reflexivity|].
+  destruct c; try contradiction.
+  - destruct rn; [destruct r|]; apply IH.
+  - apply IH.
+Qed.
+
+Lemma components_head_root s :
+  exists hd tl, components s = hd ++ tl /\ tail_ok tl /\
+    ((is_rooted s = true /\ hd = [CRoot]) \/ (is_rooted s = false /\ (hd = [] \/ hd = [CCur]))).
+Proof.
+  unfold components. pose proof (split_nonempty s) as Hne. destruct (split s) as [|g gs]; [congruence|].
+  destruct (is_rooted s); cbn [negb app].
+  - exists [CRoot], (seg_comp false g ++ flat_map (seg_comp false) gs). repeat split; auto.
+    apply Forall_app; split; [apply seg_comp_false_tail | apply flat_map_tail].
+  - destruct (seg_comp_true_shape g) as [H|H]; rewrite H.
+    + exists [CCur], (flat_map (seg_comp false) gs). repeat split; auto. apply flat_map_tail.
+    + exists [], (seg_comp false g ++ flat_map (seg_comp false) gs). repeat split; auto.
+      apply Forall_app; split; [apply seg_comp_false_tail | apply flat_map_tail].
+Qed.
+
+Lemma denote_root s : d_root (denote (components s)) = is_rooted s.
+Proof.
+  destruct (components_head_root s) as (hd & tl & -> & Ht & [[-> ->]|[-> [->| ->]]]);
+    unfold denote; cbn [app den_go]; apply den_go_root_tail; assumption.
+Qed.
+
+Lemma render_canon_rooted d : den_ok d -> is_rooted (render (canon d)) = d_root d.
+Proof.
+  intros Hd. pose proof (canon_tail_ok d Hd) as HT.
+  assert (HN : Forall nonroot_ok (repeat CParent (d_ups d) ++ map CNormal (d_names d)))
+    by (eapply Forall_impl; [|exact HT]; apply tailc_nonroot).
+  unfold canon. destruct (d_root d); cbn [app].
+  - rewrite render_rooted by assumption. reflexivity.
+  - destruct (repeat CParent (d_ups d) ++ map CNormal (d_names d)) as [|c l] eqn:E; [reflexivity|].
+    rewrite render_unrooted by (try discriminate; assumption).
+    inversion HN as [|? ? Hc _]; subst. destruct (comp_str_nonroot c Hc) as [H1 H2].
+    cbn [map]. destruct (comp_str c) as [|ch g] eqn:Ec; [congruence|]. inversion H2; subst.
+    destruct (map comp_str l); simpl; apply N.eqb_neq; assumption.
+Qed.
+
+Lemma clean_preserves_absolute s r : clean s = Done r -> is_absolute r = is_absolute s.
+Proof.
+  rewrite clean_is_spec. intros H. injection H as <-. unfold is_absolute, clean_spec.
+  rewrite render_canon_rooted by apply denote_ok. apply denote_root.
+Qed.
+
+(* T2d: the result is lexically equivalent to the argument *)
+Lemma clean_equiv s : lex_equiv s (clean_spec s).
+Proof.
+  unfold lex_equiv, clean_spec. rewrite components_render_canon by apply denote_ok.
+  rewrite denote_canon by apply denote_ok. reflexivity.
+Qed.
+
+(* ------------------------------------------------------------------------------------------ *)
+(* the rule-based normal form *)
+Lemma clean_spec_render_canon d : den_ok d -> clean_spec (render (canon d)) = render (canon d).
+Proof.
+  intros Hd. unfold clean_spec. rewrite components_render_canon by assumption.
+  rewrite denote_canon by assumption. reflexivity.
+Qed.
+
+Lemma proper_is_name g : noslash g -> proper g = true -> is_name g.
+Proof.
+  unfold proper, is_dot, is_dotdot. intros Hn H.
+  apply andb_true_iff in H as [H H3]. apply andb_true_iff in H as [H1 H2].
+  apply negb_true_iff in H1, H2, H3. apply str_eqb_neq in H1, H2, H3. repeat split; assumption.
+Qed.
+
+Lemma is_name_proper g : is_name g -> proper g = true.
+Proof.
+  intros (H1 & _ & H2 & H3). unfold proper, is_dot, is_dotdot.
+  apply str_eqb_neq in H1, H2, H3. rewrite H1, H2, H3. reflexivity.
+Qed.
+
+Lemma forallb_proper_names gs : Forall noslash gs -> forallb proper gs = true -> Forall is_name gs.
+Proof.
+  induction 1 as [|g gs Hg _ IH]; intros H; [constructor|]. simpl in H. apply andb_true_iff in H as [H1 H2].
+  constructor; [apply proper_is_name; assumption | apply IH; assumption].
+Qed.
+
+Lemma names_forallb_proper gs : Forall is_name gs -> forallb proper gs = true.
+Proof. induction 1 as [|g gs Hg _ IH]; [reflexivity|]. simpl. rewrite is_name_proper by assumption. exact IH. Qed.
+
+Lemma drop_dotdots_split gs : exists k, gs = repeat [dot; dot] k ++ drop_dotdots gs.
+Proof.
+  induction gs as [|g gs [k IH]]; [exists 0; reflexivity|]. simpl. unfold is_dotdot.
+  destruct (str_eqb g [dot; dot]) eqn:E.
+  - apply str_eqb_eq in E. subst g. exists (S k). simpl. f_equal. exact IH.
+  - exists 0. reflexivity.
+Qed.
+
+Lemma drop_dotdots_names k ns : Forall is_name ns -> drop_dotdots (repeat [dot; dot] k ++ ns) = ns.
+Proof.
+  intros Hn. induction k as [|k IH]; simpl; [|exact IH].
+  destruct ns as [|n ns]; [reflexivity|]. simpl. inversion Hn as [|? ? (_ & _ & _ & H) _]; subst.
+  unfold is_dotdot. apply str_eqb_neq in H. rewrite H. reflexivity.
+Qed.
+
+Lemma map_comp_str_body k ns :
+  map comp_str (repeat CParent k ++ map CNormal ns) = repeat [dot; dot] k ++ ns.
+Proof.
+  rewrite map_app, map_map. cbn [comp_str]. rewrite map_id. f_equal.
+  induction k; simpl; [reflexivity | f_equal; assumption].
+Qed.
+
+Lemma normal_form_render_canon d : den_ok d -> NormalForm (render (canon d)).
+Proof.
+  intros Hd. pose proof (canon_tail_ok d Hd) as HT. destruct Hd as [Hr Hn].
+  assert (HN : Forall nonroot_ok (repeat CParent (d_ups d) ++ map CNormal (d_names d)))
+    by (eapply Forall_impl; [|exact HT]; apply tailc_nonroot).
+  unfold NormalForm, normal_form_b, canon. destruct (d_root d) eqn:Er; cbn [app].
+  - rewrite (Hr eq_refl) in *. cbn [repeat app] in *. rewrite render_rooted by assumption.
+    destruct (d_names d) as [|n ns] eqn:En; [reflexivity|].
+    rewrite split_slash_join by (try discriminate; apply map_comp_str_noslash; assumption).
+    rewrite map_map. cbn [comp_str]. rewrite map_id.
+    pose proof (names_forallb_proper _ Hn) as Hp.
+    destruct n; destruct ns; try exact Hp; reflexivity.
+  - destruct (repeat CParent (d_ups d) ++ map CNormal (d_names d)) as [|c l] eqn:E; [reflexivity|].
+    rewrite render_unrooted by (try discriminate; assumption).
+    rewrite split_join by (try discriminate; apply map_comp_str_noslash; assumption).
+    rewrite <- E, map_comp_str_body.
+    assert (Hd : drop_dotdots (repeat [dot; dot] (d_ups d) ++ d_names d) = d_names d)
+      by (apply drop_dotdots_names; assumption).
+    assert (Hfirst : exists g gs, repeat [dot; dot] (d_ups d) ++ d_names d = g :: gs /\ g <> []).
+    { destruct (d_ups d); simpl.
+      - destruct (d_names d) as [|n ns]; [simpl in E; discriminate|]. exists n, ns. split; [reflexivity|].
+        inversion Hn as [|? ? (H & _) _]; assumption.
+      - eexists _, _. split; [reflexivity | discriminate]. }
+    destruct Hfirst as (g & gs & Eg & Hg). rewrite Eg in *. destruct g as [|ch g]; [congruence|].
+    rewrite Hd. rewrite names_forallb_proper by assumption. apply orb_true_r.
+Qed.
+
+(* T3a: clean returns a path in normal form *)
+Lemma clean_normal s : NormalForm (clean_spec s).
+Proof. apply normal_form_render_canon, denote_ok. Qed.
+
+Lemma normal_form_is_canon t : NormalForm t -> exists d, den_ok d /\ t = render (canon d).
+Proof.
+  unfold NormalForm, normal_form_b. intros H. pose proof (join_split t) as Hj.
+  pose proof (split_all_noslash t) as Hns. destruct (split t) as [|g gs] eqn:Es; [discriminate|].
+  destruct g as [|ch g].
+  - destruct gs as [|g1 gs]; [discriminate|].
+    pose proof (Forall_inv_tail Hns) as Hns'.
+    assert (Hcase : (g1 = [] /\ gs = []) \/ forallb proper (g1 :: gs) = true).
+    { destruct g1; [destruct gs; [left; split; reflexivity | right; exact H] | right; exact H]. }
+    destruct Hcase as [[-> ->] | Hp].
+    + exists {| d_root := true; d_ups := 0; d_names := [] |}. split; [split; [reflexivity | constructor]|].
+      simpl in Hj. rewrite <- Hj. reflexivity.
+    + pose proof (forallb_proper_names _ Hns' Hp) as Hn.
+      exists {| d_root := true; d_ups := 0; d_names := g1 :: gs |}. split; [split; [reflexivity | exact Hn]|].
+      unfold canon. cbn [d_root d_ups d_names repeat app].
+      rewrite render_rooted by (apply Forall_map; eapply Forall_impl; [|exact Hn]; intros a Ha; exact Ha).
+      rewrite map_map. cbn [comp_str]. rewrite map_id. rewrite <- Hj.
+      rewrite join_names_cons by discriminate. reflexivity.
+  - apply orb_true_iff in H as [H|H].
+    + apply str_eqb_eq in H. subst t. exists {| d_root := false; d_ups := 0; d_names := [] |}.
+      split; [split; [reflexivity | constructor] | reflexivity].
+    + destruct (drop_dotdots_split ((ch :: g) :: gs)) as [k Hk].
+      set (ns := drop_dotdots ((ch :: g) :: gs)) in *.
+      assert (Hnn : Forall noslash ns).
+      { rewrite Hk in Hns. apply Forall_app in Hns as [_ Hns]. exact Hns. }
+      pose proof (forallb_proper_names _ Hnn H) as Hn.
+      exists {| d_root := false; d_ups := k; d_names := ns |}. split; [split; [discriminate | exact Hn]|].
+      unfold canon. cbn [d_root d_ups d_names app].
+      assert (HN : Forall nonroot_ok (repeat CParent k ++ map CNormal ns)).
+      { apply Forall_app; split.
+        - apply Forall_forall. intros c Hc. apply repeat_spec in Hc. subst. exact I.
+        - apply Forall_map. eapply Forall_impl; [|exact Hn]. intros a Ha. exact Ha. }
+      destruct (repeat CParent k ++ map CNormal ns) as [|c l] eqn:E.
+      * exfalso. destruct k; [|discriminate]. destruct ns; [|discriminate]. simpl in Hk. discriminate.
+      * rewrite render_unrooted by (try discriminate; assumption).
+        rewrite <- E, map_comp_str_body, <- Hk. symmetry. exact Hj.
+Qed.
+
+(* T3b: a path in normal form is a fixed point of clean *)
+Lemma normal_form_fixed t : NormalForm t -> clean_spec t = t.
+Proof.
+  intros H. destruct (normal_form_is_canon t H) as (d & Hd & ->). apply clean_spec_render_canon. exact Hd.
+Qed.
+
+(* T3c: uniqueness — any normal-form path lexically equivalent to s is the one clean returns *)
+Lemma clean_unique s t : lex_equiv s t -> NormalForm t -> t = clean_spec s.
+Proof.
+  intros He Hn. rewrite <- (normal_form_fixed t Hn). unfold clean_spec, lex_equiv in *. rewrite He. reflexivity.
+Qed.
+
+(* non-vacuity: the hypotheses of clean_unique are satisfiable on a non-trivial instance *)
+Example clean_unique_instance :
+  let s := [47; 97; 47; 46; 47; 46; 46; 47; 47; 98; 47]%N in   (* "/a/./..//b/" *)
+  let t := [47; 98]%N in                                        (* "/b" *)
+  lex_equiv s t /\ NormalForm t /\ clean s = Done t.
+Proof. repeat split; vm_compute; reflexivity. Qed.
